@@ -19,8 +19,10 @@ QUICK_BUDGET = 100
 THOROUGH_BUDGET = 1500
 RULE = ('one run = one simulated hand on one of the 11 hand-history variants (single run-out, int or Decimal chips - the '
         'Decimal values in plain or in normalised spelling such as 1E+2 -, known '
-        'cards or unknown burn/down cards revealed at showdown, commentary on some operations, optional and '
-        'user-defined fields with str/int/bool/list/dict values drawn from printable ASCII incl. quotes, #, backslash), '
+        'cards or unknown burn/down cards revealed at showdown, commentary on some operations, a random subset of the 24 '
+        'optional fields (strings, date and time, seats, player names, currency, time banks ...) and user-defined fields '
+        'with str/int/bool/list/dict values drawn from printable ASCII incl. quotes, #, backslash; in a third of the runs '
+        'also several histories in one file through dump_all/load_all), '
         'written with compression on or off through an in-memory binary file object (dump/load). Oracle: load(dump(h)) == '
         'h and dump(load(dump(h))) is the identical text; replaying the loaded history reproduces the player-action '
         'records (players, amounts, cards), the cards per player and board, the final stacks and the payoffs; '
@@ -144,6 +146,32 @@ def replay_to_end(hh, what):
     return state
 
 
+def several_in_one_file(ch, hh, ctx):
+    """dump_all / load_all: the hand next to copies of itself that differ in a field, in one file."""
+    import dataclasses
+    hands = [hh]
+    for k in range(1 + ch.pick('file.more', 2)):
+        hands.append(dataclasses.replace(hh, hand=1000 + k, actions=list(hh.actions[:len(hh.actions) // (k + 1)])))
+    buf = io.BytesIO()
+    try:
+        HandHistory.dump_all(hands, buf)
+        with warnings.catch_warnings():
+            warnings.simplefilter('error')
+            back = list(HandHistory.load_all(io.BytesIO(buf.getvalue())))
+    except Exception as e:      # noqa: BLE001
+        raise Violation('C16.file', f'{len(hands)} histories written to one file cannot be read back: {type(e).__name__}: {e}',
+                        rule='file')
+    ctx.count('files_with_several_hands')
+    if back != hands:
+        bad = next((i for i, (a, b) in enumerate(zip(back, hands)) if a != b), min(len(back), len(hands)))
+        raise Violation('C16.file', f'load_all(dump_all(hands)) returns {len(back)} histories for {len(hands)}; the first that '
+                        f'differs is #{bad}', rule='file')
+    buf2 = io.BytesIO()
+    HandHistory.dump_all(back, buf2)
+    if buf2.getvalue() != buf.getvalue():
+        raise Violation('C16.file', 'saving the histories loaded from one file gives a different text', rule='file_fixpoint')
+
+
 class ZeroTracker(Monitor):
     """Players whose stack was empty at some point of the hand (also mid-cascade)."""
 
@@ -208,10 +236,32 @@ def run(ch, ctx):
     compression = bool(ch.pick('c16.compression', 2))
     fields = {}
     if ch.chance('c16.fields', 2, 3):
-        fields['author'] = gen_text(ch, 'f.author')
-        fields['year'] = 1990 + ch.pick('f.year', 60)
-        fields['hand'] = ch.pick('f.hand', 10**6)
-        fields['players'] = [gen_text(ch, 'f.player') for _ in range(cfg['n'])]
+        import datetime
+        n = cfg['n']
+        makers = {
+            'author': lambda: gen_text(ch, 'f.author'), 'event': lambda: gen_text(ch, 'f.event'),
+            'url': lambda: 'https://x.example/' + gen_text(ch, 'f.url').replace(' ', '_'),
+            'venue': lambda: gen_text(ch, 'f.venue'), 'address': lambda: gen_text(ch, 'f.address'),
+            'city': lambda: gen_text(ch, 'f.city'), 'region': lambda: gen_text(ch, 'f.region'),
+            'postal_code': lambda: gen_text(ch, 'f.postal'), 'country': lambda: gen_text(ch, 'f.country'),
+            'time': lambda: datetime.time(ch.pick('f.h', 24), ch.pick('f.m', 60), ch.pick('f.s', 60)),
+            'time_zone': lambda: ('UTC', 'America/Toronto', 'Asia/Seoul')[ch.pick('f.tz', 3)],
+            'day': lambda: 1 + ch.pick('f.day', 28), 'month': lambda: 1 + ch.pick('f.month', 12),
+            'year': lambda: 1990 + ch.pick('f.year', 60),
+            'hand': lambda: ch.pick('f.hand', 10**6) if ch.pick('f.hand.kind', 2) else gen_text(ch, 'f.hand.s'),
+            'level': lambda: ch.pick('f.level', 40),
+            'seats': lambda: [1 + (i * 2 + ch.pick('f.seat0', 3)) % 10 for i in range(n)] if n <= 5 else list(range(1, n + 1)),
+            'seat_count': lambda: n + ch.pick('f.seat_count', 4),
+            'table': lambda: ch.pick('f.table', 500) if ch.pick('f.table.kind', 2) else gen_text(ch, 'f.table.s'),
+            'players': lambda: [gen_text(ch, 'f.player') for _ in range(n)],
+            'currency': lambda: ('USD', 'EUR', 'KRW')[ch.pick('f.cur', 3)],
+            'currency_symbol': lambda: ('$', '\u20ac', '\u20a9')[ch.pick('f.cursym', 3)],
+            'time_limit': lambda: 5 + ch.pick('f.tl', 120),
+            'time_banks': lambda: [ch.pick('f.tb', 300) for _ in range(n)],
+        }
+        for name, make in makers.items():
+            if ch.chance('f.use.' + name, 1, 3):
+                fields[name] = make()
         for i in range(1 + ch.pick('uf.count', 3)):
             fields['_u%d' % i] = gen_value(ch)
     try:
@@ -240,6 +290,8 @@ def run(ch, ctx):
         compare(st, end, 'terminal history')
         if ch.chance('c16.inf', 1, 3):
             inf_variant(ch, st, hh, zt.zeroed, cfg, ctx)
+        if ch.chance('c16.file', 1, 3):
+            several_in_one_file(ch, hh, ctx)
         if cut is not None:
             resume(world, cut, ctx)
         if plan == 2:
